@@ -170,14 +170,17 @@ def rule_stringkey(chk, prog, tier):
                 cap['len'] = a[2]; cap['ptr'] = a[1]
                 return None
             it.models['mapkey'] = mapkey
-            it.models['mapput'] = lambda it2, a, e2: Ptr(Obj('slot', 'heap'), ())
+            def mapput(it2, a, e2):
+                slot = Obj('slot', 'heap'); slot.f[()] = None      # a fresh entry: no declaration yet
+                return Ptr(slot, ())
+            it.models['mapput'] = mapput
             it.models['mapinit'] = lambda it2, a, e2: None
             it.models['emitdata'] = lambda it2, a, e2: None
             it.models['mkinit'] = lambda it2, a, e2: None
             try:
                 it.call(fn, [e])
-            except Unsupported:
-                pass
+            except (Unsupported, Terminal):
+                pass          # what follows the key computation (creating and emitting the declaration) is not this rule's subject
             return cap.get('len'), n * w
         runs = explore(prog, runner, {}, max_runs=2, on_unsupported='keep')
         run = runs[0]
